@@ -280,6 +280,36 @@ def cir_moments(ctx: Ctx, recs: List[Dict[str, Any]]) -> None:
                     ctx.violation("cir:exponential:atom", "the exponential branch does not put the mass p = (psi - 1)/(psi + 1) at zero", {**d, "p": p, "at_p/2": z0, "just_below_p": zlo, "just_above_p": zhi})
 
 
+def vasicek_long_horizon(ctx: Ctx) -> None:
+    """The exact Ornstein-Uhlenbeck transition applied step by step over a LONG horizon (kappa T in the hundreds and beyond 700),
+    float64 and float32, on supplied normals: the path equals the recursion x' = theta + (x - theta) e^(-kappa dt) + vola z computed
+    by the harness - every step is a contraction, nothing grows with the horizon."""
+    from pfhedge.stochastic import generate_vasicek
+    for dtype, T, tol in ((torch.float64, 1300, 1e-6), (torch.float32, 400, 2e-3)):
+        dt = 0.25
+        kappa = 4 * LN2 / dt                     # e^(-kappa dt) = 1/16:  kappa T = 2.77 T
+        theta, sigma, x0 = 0.05, 0.3, 0.75
+        g = torch.Generator().manual_seed(ctx.seed + 13)
+        Z = torch.randn(2, T, generator=g, dtype=torch.float64).to(dtype)
+        mu = 1.0 / 16
+        vola = sigma * math.sqrt((1 - mu * mu) / (2 * kappa))
+        ref = torch.empty(2, T, dtype=torch.float64)
+        ref[:, 0] = x0
+        for i in range(T - 1):
+            ref[:, i + 1] = theta + (ref[:, i] - theta) * mu + vola * Z[:, i].double()
+        try:
+            with patched(torch, "randn_like", lambda t, **kw: Z.clone().to(t.dtype)):
+                got = generate_vasicek(2, T, init_state=(x0,), kappa=kappa, theta=theta, sigma=sigma, dt=dt, dtype=dtype)
+        except Exception as ex:
+            ctx.violation("scheme:vasicek:long-horizon", f"generate_vasicek raised {type(ex).__name__} over {T} steps", {"error": repr(ex)[:200]})
+            continue
+        ctx.count(n=2)
+        if got.dtype != dtype or not bool(got.isfinite().all()) or not bool(((got.double() - ref).abs() <= tol * (1 + ref.abs())).all()):
+            bad = (~got.isfinite()).nonzero()
+            ctx.violation("scheme:vasicek:long-horizon", f"generate_vasicek over {T} steps (kappa T = {kappa * dt * T:.0f}, {dtype}) differs from the step-by-step Ornstein-Uhlenbeck transition",
+                          {"first_non_finite_step": (int(bad[0][1]) if len(bad) else None), "max_abs_diff": float((got.double() - ref).abs().nan_to_num(posinf=1e300).max())})
+
+
 def heston_steps(ctx: Ctx, recs: List[Dict[str, Any]]) -> None:
     """The log-price step of generate_heston / HestonStock on supplied normals: with the variance move (v -> v') produced by the
     code's own variance step, ln S' - ln S must be k0 + k1 v + k2 v' + sqrt(k3 v + k4 v') Z with the coefficients of Heston.tla."""
@@ -320,6 +350,7 @@ def heston_steps(ctx: Ctx, recs: List[Dict[str, Any]]) -> None:
 
 
 def check(ctx: Ctx) -> None:
+    vasicek_long_horizon(ctx)
     hes = ctx.tlc("MC_Heston", "MC_Heston.cfg", workers=4)
     hrecs = [r for r in hes.records if r.get("rec") == "heston_step"]
     if len(hrecs) < 100:
